@@ -98,6 +98,12 @@ def is_candidate(func):
                 return False
         elif isinstance(st, ast.Return):
             continue
+        elif isinstance(st, ast.If) and not st.orelse and len(st.body) == 1 and isinstance(st.body[0], ast.Return) and \
+                isinstance(st.body[0].value, ast.Constant) and isinstance(st.body[0].value.value, bool):
+            # `if rec(a): return True` / `if not rec(a): return False`: one operand of the disjunction / conjunction, spelled out
+            t = st.test.operand if isinstance(st.test, ast.UnaryOp) and isinstance(st.test.op, ast.Not) else st.test
+            if not _is_rec(t, name):
+                return False
         else:
             return False
     return True
